@@ -292,6 +292,17 @@ static Verdict run_c17(const Case &c)
   }
   if (r.timed_out)
   {
+    // a run of a few milliseconds that exceeds 30 s is repeated twice; only three timeouts in a row count
+    // (the statement says the program terminates; a single slow run on a loaded machine is inconclusive)
+    int timeouts = 1;
+    for (int attempt = 0; attempt < 2 && timeouts == attempt + 1; attempt++)
+    {
+      RunRes r2 = spawn(bin, argv, dir);
+      if (r2.timed_out)
+        timeouts++;
+    }
+    if (timeouts == 3)
+      return bad("did not terminate within 30 s in three consecutive attempts");
     v.classes.push_back("watchdog_inconclusive");
     v.nontrivial = false;
     return v;
